@@ -15,6 +15,12 @@ pub use self::{
     encode::{Error as HuffmanEncodingError, HpackStringEncode},
 };
 
+#[cfg(hyperium_h3_verif)]
+pub use self::{
+    decode::verif_read_bits,
+    encode::{verif_code, verif_write_bits},
+};
+
 use crate::proto::coding::BufMutExt;
 use crate::qpack::prefix_int::{self, Error as IntegerError};
 
